@@ -57,6 +57,9 @@ func panicValues() []struct {
 		{"other-errno", op(syscall.ENOSPC), false, false},
 		// the broken-connection errno one wrapping layer further down the OpError's chain
 		{"broken-pipe-wrapped", &net.OpError{Op: "write", Net: "tcp", Err: fmt.Errorf("flush: %w", &os.SyscallError{Syscall: "write", Err: syscall.EPIPE})}, false, true},
+		// ... and reported by the system call error's text only (other platforms' spelling, non-errno causes)
+		{"broken-pipe-by-message", &net.OpError{Op: "write", Net: "tcp", Err: &os.SyscallError{Syscall: "write", Err: errors.New("Broken pipe")}}, false, true},
+		{"conn-reset-by-message", &net.OpError{Op: "read", Net: "tcp", Err: &os.SyscallError{Syscall: "read", Err: fmt.Errorf("tls record: %w", errors.New("connection reset by peer"))}}, false, true},
 		{"conn-reset-nested-operror", &net.OpError{Op: "write", Net: "tcp", Err: &net.OpError{Op: "write", Net: "tcp", Err: &os.SyscallError{Syscall: "write", Err: syscall.ECONNRESET}}}, false, true},
 	}
 }
